@@ -18,7 +18,9 @@ enum { A_VALUE, A_EXC, A_DROP, A_NOTHING, A_ASYNC_VALUE, A_ASYNC_THROW, A_COUNT,
        A_DEFAULT_DTOR,                // promise_with_default<T> d(std::move(shared), dflt); ~d - resolves to the default value
        A_ALL };
 // waiter kinds
-enum { W_COAWAIT, W_HASVALUE, W_WAIT, W_SYNC, W_SUBSCRIBE, W_CALLBACK_AWAIT, W_POLL, W_FORCE_WAIT_IN_CORO, W_OPERATOR_BOOL, W_COUNT };
+enum { W_COAWAIT, W_HASVALUE, W_WAIT, W_SYNC, W_SUBSCRIBE, W_CALLBACK_AWAIT, W_POLL, W_FORCE_WAIT_IN_CORO, W_OPERATOR_BOOL, W_COUNT,
+       W_PARALLEL = W_COUNT,          // co_await cocls::parallel(f): the coroutine continues in a new detached thread (chosen by a trailing byte)
+       W_ALL };
 
 struct Res { uint8_t action, yields; };
 struct Wai { uint8_t kind, yields; };
@@ -50,6 +52,7 @@ inline Prog decode(hz::Reader &r, Mode m) {
     p.resolvers_first = r.flag();
     p.assign_over = r.mod(3) == 1;
     for (auto &x : p.res) { unsigned e = r.mod(8); if (e >= 3) x.action = (uint8_t)(A_MOVE_THEN_VALUE + (e - 3)); }
+    for (auto &x : p.wai) { unsigned e = r.mod(8); if (e == 7) x.kind = W_PARALLEL; }
     return p;
 }
 
@@ -57,7 +60,7 @@ inline std::string describe(const Prog &p) {
     static const char *vt[] = {"int", "void", "move-only", "int&", "Counted"};
     static const char *act[] = {"value", "exception", "drop", "nothing", "async completes with value", "async throws",
         "move the promise into a local, then value", "move-assign the promise into a local and destroy it", "bind(value) then call", "unhandled_exception() in a catch block", "move into promise_with_default and destroy it"};
-    static const char *wk[] = {"co_await f", "co_await f.has_value()", "f.wait()", "f.sync()", "subscribe(custom awaiter)", "callback_await", "poll ready()", "force_wait() inside a coroutine", "if (f) ... *f (operator bool / operator*)"};
+    static const char *wk[] = {"co_await f", "co_await f.has_value()", "f.wait()", "f.sync()", "subscribe(custom awaiter)", "callback_await", "poll ready()", "force_wait() inside a coroutine", "if (f) ... *f (operator bool / operator*)", "co_await cocls::parallel(f)"};
     hz::Desc d;
     d << "future<" << vt[p.vt] << ">, promise moved " << (unsigned)p.moves << "x" << (p.assign_over ? " and move-assigned onto a promise that owned another pending future" : "") << ", " << (p.resolvers_first ? "resolvers spawned first" : "waiters spawned first") << "; resolvers:";
     for (size_t i = 0; i < p.res.size(); i++) d << " R" << (unsigned)i << "[yield*" << (unsigned)p.res[i].yields << ", " << act[p.res[i].action] << "]";
@@ -226,6 +229,22 @@ cocls::async<void> waiter_hasvalue(Ctx<VT> &c, WRec &w) {
     w.code = code;
 }
 
+// co_await cocls::parallel(f): a waiter that had to suspend continues in a brand-new detached thread (resume.h)
+template<int VT>
+cocls::async<void> waiter_parallel(Ctx<VT> &c, WRec &w) {
+    using P = cocls::parallel<cocls::co_awaiter<cocls::future<typename Tr<VT>::T>>>;
+    FutAw<VT, P> aw{P(c.f), &w, &c};
+    int code = -100;
+    try {
+        if constexpr (VT == 1) { co_await aw; code = 0; }
+        else { decltype(auto) v = co_await aw; code = Tr<VT>::dec(v); }
+    }
+    catch (const val::TestExc &e) { code = 1000 + e.id; }
+    catch (const cocls::await_canceled_exception &) { code = -1; }
+    catch (const cocls::value_not_ready_exception &) { code = -2; }
+    w.code = code;
+}
+
 // a coroutine that blocks its thread on the future (force_wait: the documented way to do that inside a coroutine)
 template<int VT>
 cocls::async<void> waiter_force(Ctx<VT> &c, WRec &w) {
@@ -302,6 +321,7 @@ void waiter_thread(Ctx<VT> &c, int i) {
             while (!fired.load(std::memory_order_acquire)) vrt::yield();
         } break;
         case W_FORCE_WAIT_IN_CORO: { cocls::future<void> done = waiter_force<VT>(c, w).start(); done.wait(); } break;
+        case W_PARALLEL: { cocls::future<void> done = waiter_parallel<VT>(c, w).start(); done.wait(); } break;
         case W_OPERATOR_BOOL: {
             w.t_begin = hz::tick();
             bool hv = (bool)c.f;                 // waits, then reports whether there is a value (no exception thrown)
@@ -414,6 +434,8 @@ void run_t(const Prog &p, Mode mode) {
     hz::count(0, overlapped);
     unsigned ext = 0; for (auto &x : p.res) if (x.action >= A_COUNT) ext++;
     hz::count(1, ext);
+    unsigned par = 0; for (auto &x : p.wai) if (x.kind == W_PARALLEL) par++;
+    hz::count(2, par);
 }
 
 inline void run(hz::Reader &r, Mode mode) {
@@ -430,6 +452,6 @@ inline void run(hz::Reader &r, Mode mode) {
 static const char *const class_names[] = {
     "no-waiter", "waiters:before", "waiters:overlap", "waiters:before+overlap", "waiters:after", "waiters:before+after",
     "waiters:overlap+after", "waiters:before+overlap+after"};
-static const char *const counter_names[] = {"overlapping_parties", "resolvers_using_move_bind_unhandled_or_default_forms"};
+static const char *const counter_names[] = {"overlapping_parties", "resolvers_using_move_bind_unhandled_or_default_forms", "waiters_using_parallel"};
 
 } // namespace scen_future
